@@ -20,6 +20,8 @@ run-time strings), annotation/debug items, equality with a generated model.
 """
 from __future__ import annotations
 
+OWN_MUTATION_ADEQUACY = True  # thorough tier: rule-specific in-place AST mutants (mutate / re-run core / undo), see thorough()
+
 import ast
 import copy
 
@@ -295,8 +297,28 @@ def run(ctx):
     ctx.assume("readuleb128/readuleb128p1/readsleb128 consume exactly one LEB128 value from the stream (decided under C03)")
     ctx.note("not decided: DEX.get_class / get_encoded_method_descriptor style lookup helpers (dictionary caches keyed by run-time strings); "
              "annotation, debug-info and encoded-value items; try/handler tables (C08)")
+    positive_control(ctx)
     if ctx.tier == "thorough":
         thorough(ctx)
+
+
+def positive_control(ctx):
+    """one seeded violation per run (in memory, nothing written): the getter rule must fire when the class / proto
+    slots of method_id_item are swapped"""
+    m = ctx.mod(DEX)
+    undo = _swap_targets(m.func("MethodIdItem.__init__").node, lambda n: True)
+    ctx.require(undo is not None, "positive control: MethodIdItem.__init__ has no tuple-unpacking assignment to seed")
+    try:
+        s = Sink(ctx.repo)
+        md = Model(s)
+        try:
+            check_getter(s, md, "MethodIdItem", "get_class_idx", GETTERS["MethodIdItem"]["get_class_idx"], {})
+        except AnalysisError:
+            pass
+    finally:
+        undo()
+    ctx.ob("positive-control", "seeded slot swap in MethodIdItem", bool(s.findings), "getter rule fires on the seeded violation")
+    ctx.require(s.findings, "positive control did not fire: the getter rule no longer detects a swapped struct slot")
 
 
 def core(ctx):
